@@ -32,6 +32,7 @@ type thread struct {
 	args     []value
 	site     ssa.Instruction
 	result   interface{} // recovered panic of the native goroutine
+	ret      value       // return value of the thread's function
 }
 
 func (m *machine) newThread(fn value, args []value, site ssa.Instruction) *thread {
@@ -68,7 +69,7 @@ func (m *machine) startThread(nt *thread) {
 			panic(pathEnd{kind: endAbortThread})
 		}
 		m.cur = nt
-		nt.call(nil, nt.fn, nt.args, nt.site)
+		nt.ret = nt.call(nil, nt.fn, nt.args, nt.site)
 	}()
 }
 
